@@ -56,7 +56,7 @@ CheckStepP(want, pre, e, post, acc, line) ==
   /\ (want["C19"]) => C19(pre, e, post, line)
   /\ (want["C10"]) => C10(pre, e, post, line)
   /\ (want["C11"]) => C11(pre, e, post, line)
-  /\ (want["C18"]) => C18(pre, e, post, line)
+  /\ (want["C18"]) => (C18(pre, e, post, line) /\ C18Migrate(pre, e, post, line))
   /\ (want["C20"]) => C20(pre, e, post, line)
   \* guard against vacuity: a requested property without a predicate above is an error of the machinery
   /\ \A p \in DOMAIN want : (want[p] /\ p \notin Wired) => Chk("TOOL", "property_not_wired_into_trace_spec", line, FALSE, [property |-> p])
